@@ -24,7 +24,7 @@ C = 10.0
 CR = {'reshape': 5.0, 'reshape_m': 5.0, 'permute': 5.0, 'permute_m': 5.0, 'to_qtt': 10.0, 'to_qtt_m': 5.0, 'qtt_roundtrip': 10.0}
 TIERS = {
     'quick': {'runs': 20000, 'opts': {}, 'chunk': 100},
-    'thorough': {'runs': 80000, 'opts': {}, 'chunk': 100, 'time_cap': 1200},
+    'thorough': {'runs': 600000, 'opts': {}, 'chunk': 200, 'time_cap': 1200},
 }
 RULE = ('seeded TT tensors/operators of order 1..6; reshape to an ordered factorisation/merge of the element count with 0-2 singleton '
         'modes inserted (front/middle/end), permutations (all for d<=4, sampled above), power-of-two QTT conversion and folding back; '
